@@ -269,20 +269,13 @@ def main(argv):
             else:
                 correspond(c, "FilePiece model vs util/file_piece.cc (page %d)" % page, drv, impl, lines, chunk=200000)
             # --- direct oracle on the implementation's output: Python split
-            out = []
-            dead = False
-            for i in range(0, len(lines), 200000):
-                rc, o, err = run_lines(impl, lines[i:i + 200000], timeout=900)
-                if len(o) != len(lines[i:i + 200000]):
-                    # find the case that killed / hung the harness
-                    c.violation("harness-died: hx_filepiece stopped after %d of %d cases (rc %s): %s" % (len(o), len(lines[i:i + 200000]), rc, err[-200:]),
-                                {"case": lines[i + len(o)] if i + len(o) < len(lines) else None, "page": page})
-                    dead = True
-                    break
-                out += o
-            if dead:
-                continue
+            out, deaths = run_lines_resilient(impl, lines, timeout=900)
+            for idx, rc, err in deaths:
+                c.violation("harness-died: util::FilePiece crashed or hung (rc %s) on case %r: %s" % (rc, lines[idx][:200], err[-200:]),
+                            {"case": lines[idx], "page": page, "rc": rc, "how": "HX_PAGESIZE=%d hx_filepiece <<< '%s'" % (page, lines[idx])})
             for line, (kind, src, delim, cr), o in zip(lines, metas, out):
+                if o is None:
+                    continue
                 want = py_records(src, delim, cr)
                 got = parse_out(o)
                 if got is None:
